@@ -77,7 +77,9 @@ theorem ensurePath_same (o : Opts) {r₁ r₂ : Root} (h : SameCS r₁ r₂) (pa
   split
   · exact h
   · exact h
-  · rw [ensure_cr o r₁.selfCR r₂.selfCR, h.1, h.2]
+  · split
+    · exact h
+    rw [ensure_cr o r₁.selfCR r₂.selfCR, h.1, h.2]
     generalize ensure o r₂.selfCR r₂.self r₂.con _ = x
     cases x with
     | ok p => obtain ⟨c, s⟩ := p; exact ⟨rfl, rfl⟩
